@@ -413,6 +413,8 @@ def run_op(chk, fns, decls, opname, NN, EE, MM, ARGS, P, rec, part=None, hash_or
         if what == 'node': eng.assume(argterms['node'] == bv32(i)); eng.assume(M_.kind[i] == bv64(k))
         elif what == 'inst': eng.assume(argterms['inst'] == bv32(i))
         elif what == 'pkg': eng.assume(argterms['pidx'] == bv64(i)); eng.assume(If(M_.live[0], M_.kind[0], bv64(0)) == bv64(k))
+        elif what == 'defsN':
+            for e_, b_ in enumerate(i): eng.assume(M_.defined[e_][0] == BoolVal(bool(b_)))
         elif what == 'defs': eng.assume(M_.defined[0][0] == BoolVal(bool(i))); eng.assume(M_.defined[1][0] == BoolVal(bool(k)) if len(M_.defined) > 1 else BoolVal(True))
     for p in range(P): eng.assume(Implies(M_.pk_some[p], M_.pk_gen[p] == bv64(0)))      # stated bound: live packages have generation 0
     # world import lists of packages / interface export lists are bounded by ARGS
@@ -423,7 +425,7 @@ def body(chk):
     fns = chk.load('wac-graph'); decls = chk.decls('wac-graph')
     global IK_INSTANCE
     IK_INSTANCE = decls.enum_index('ItemKind', 'Instance')
-    NN, EE, MM, ARGS, P = chk.pick((3, 2, 2, 2, 2), (4, 4, 3, 2, 2))
+    NN, EE, MM, ARGS, P = chk.pick((3, 2, 2, 2, 2), (3, 3, 2, 2, 2))
     rec = chk.pick(2, 3)
     chk.bounds['state'] = {'node_slots': NN, 'edge_slots': EE, 'map_entries': MM, 'argument_indexes': ARGS, 'package_slots': P, 'remove_node_recursion': rec}
     only = os.environ.get('C06_ONLY')
